@@ -5,8 +5,8 @@ package main
 
 import (
 	"fmt"
-	"os"
 	"go/types"
+	"os"
 	"sort"
 	"strings"
 
@@ -36,40 +36,40 @@ type deferred struct {
 }
 
 type Frame struct {
-	fn       *ssa.Function
-	block    *ssa.BasicBlock
-	prev     *ssa.BasicBlock
-	pc       int
-	locals   map[ssa.Value]Value
-	defers   []deferred
-	callInst ssa.Instruction // call instruction in the caller awaiting the result
-	onReturn func(ret Value) // native continuation (instead of callInst)
-	retVal   Value
-	running  bool // RunDefers in progress at return
+	fn        *ssa.Function
+	block     *ssa.BasicBlock
+	prev      *ssa.BasicBlock
+	pc        int
+	locals    map[ssa.Value]Value
+	defers    []deferred
+	callInst  ssa.Instruction // call instruction in the caller awaiting the result
+	onReturn  func(ret Value) // native continuation (instead of callInst)
+	retVal    Value
+	running   bool // RunDefers in progress at return
 	panicking bool
 	exempt    bool // race detection: accesses made in this frame are the harness's
 }
 
 type Goroutine struct {
-	id      int
-	frames  []*Frame
-	done    bool
-	wait    *WaitOp // blocked on a channel operation
-	waitMu  *MutexObj
-	waitFn  func() bool // generic wait condition
-	atSched bool        // scheduling choice already taken for the current instruction
-	panicV  *goPanic
-	name    string
-	locks   []*MutexObj
-	yieldN  int
-	waitRead    bool
-	unwindDepth int
+	id            int
+	frames        []*Frame
+	done          bool
+	wait          *WaitOp // blocked on a channel operation
+	waitMu        *MutexObj
+	waitFn        func() bool // generic wait condition
+	atSched       bool        // scheduling choice already taken for the current instruction
+	panicV        *goPanic
+	name          string
+	locks         []*MutexObj
+	yieldN        int
+	waitRead      bool
+	unwindDepth   int
 	commitPending bool
 	vc            VC
 }
 
 type AssertStat struct {
-	ID                                    string
+	ID                                     string
 	Checked, Unsat, Sat, Unknown, Concrete int
 }
 
@@ -137,31 +137,32 @@ type Machine struct {
 	timers     []*timerEv
 	liveCheck  bool
 
-	nameCount     map[string]int
-	chosen        map[string]int64
-	errCache      map[string]Value
-	builders      map[*Obj]string
-	wantSample    bool
-	nEvents       int
-	disagreements []string
-	ctxs          []*CtxObj
-	background    *CtxObj
-	race          raceState
-	lastIOLimit   *Term
-	stormUsed     int
-	stormBudget   int
-	lastIOWraps   []*readerWrap
-	tickIntervals []*Term
-	guards        map[*MapObj]*MutexObj
-	guardViol     int
-	lastSnapDiff  string
-	panicMsg      string
+	nameCount      map[string]int
+	chosen         map[string]int64
+	errCache       map[string]Value
+	builders       map[*Obj]string
+	wantSample     bool
+	nEvents        int
+	disagreements  []string
+	ctxs           []*CtxObj
+	background     *CtxObj
+	race           raceState
+	lastIOLimit    *Term
+	stormUsed      int
+	stormBudget    int
+	lastIOWraps    []*readerWrap
+	tickIntervals  []*Term
+	guards         map[*MapObj]*MutexObj
+	guardViol      int
+	lastSnapDiff   string
+	panicMsg       string
 	kvConflicts    int
 	floatCache     map[string]*Term
 	encBlobs       []*Blob
 	lastHexID      string
-	servedHandler  Value // handler given to http.ListenAndServe (zzhttp.go)
-	nextRecID      *Term // recovery id the next modelled crypto.Sign produces (harness request.verifNextRecID)
+	syncMaps       map[string]*syncMapState // sync.Map contents by map object (zzsync.go)
+	servedHandler  Value                    // handler given to http.ListenAndServe (zzhttp.go)
+	nextRecID      *Term                    // recovery id the next modelled crypto.Sign produces (harness request.verifNextRecID)
 	reflCalls      int
 	wsConns        []*wsConn
 	urlReg         map[*Term]*urlParts
@@ -172,9 +173,9 @@ type Machine struct {
 	crashFn        *FuncVal
 	crashed        bool
 	bufBlobs       map[*Obj]*Blob
-	sigs          []sigRec
-	verifyCalls   int
-	verifyOK      int
+	sigs           []sigRec
+	verifyCalls    int
+	verifyOK       int
 }
 
 const maxInstrPerPath = 400000
